@@ -778,6 +778,10 @@ type FileParams struct {
 	// leave complementary file outputs null (even forks write f only, odd
 	// forks g only); the consumer binds both.
 	Sparse bool `json:",omitempty"`
+	// ExtDir (with Out = "sp"): the producer's files directory holds a
+	// symbolic link to a directory outside the pipestance, and the string
+	// output names a file below that link.
+	ExtDir bool `json:",omitempty"`
 }
 
 func (d FileParams) String() string {
@@ -796,6 +800,9 @@ func (d FileParams) String() string {
 	}
 	if d.Sparse {
 		sec += " sparse=true"
+	}
+	if d.ExtDir {
+		sec += " extdir=true"
 	}
 	return fmt.Sprintf("files{out=%s proj=%q prod=%s prodwrap=%v conswrap=%v consmap=%v prodmap=%v late=%v vol=%q retain=%q topout=%v mode=%s size=%d phys=%v%s}",
 		d.Out, d.Proj, d.Prod, d.ProdWrap, d.ConsWrap, d.ConsMap, d.ProdMap, d.Late, d.Vol, d.Retain, d.TopOut, d.Mode, d.Size, d.Phys, sec)
@@ -898,6 +905,9 @@ func FileFlow(d FileParams) *Program {
 	}
 	cons := filerStage(p, consT)
 	secondOut := ""
+	if d.ExtDir && (d.Out != "sp" || d.Prod != "filew" || d.ProdMap || d.Proj != "" || d.Phys) {
+		return nil
+	}
 	if d.Sparse && !(d.Second && d.ProdMap && !d.ProdDyn && (d.Out == "f" || d.Out == "g") && d.Proj == "") {
 		return nil
 	}
@@ -1069,6 +1079,9 @@ func FileFlow(d FileParams) *Program {
 	}
 	p.Pipelines = append(p.Pipelines, top)
 	p.Top = &Call{Callee: "TOP", Binds: []Bind{{"n", Lit(Int(size))}}}
+	if d.ExtDir {
+		p.Top = &Call{Callee: "TOP", Binds: []Bind{{"n", Lit(Int(100 + size))}}}
+	}
 	if d.ConsDis == "lit" {
 		p.Top.Binds = append(p.Top.Binds, Bind{"off", Lit(Bool(true))})
 	}
@@ -1139,6 +1152,17 @@ func FileFamily(maxDev int) []FileParams {
 							}
 						}
 					}
+				}
+			}
+		}
+	}
+	// a link in files/ to a directory outside the pipestance, a file below it
+	// named by a string output
+	for _, vol := range vols {
+		for _, mode := range modes {
+			for _, late := range bools {
+				for _, topo := range bools {
+					out = append(out, FileParams{Out: "sp", Prod: "filew", ExtDir: true, Late: late, TopOut: topo, Vol: vol, Mode: mode, Size: 2})
 				}
 			}
 		}
